@@ -58,7 +58,35 @@ impl Kind {
     }
 }
 
+/// overall factor applied to every kernel and kernel derivative (bits of an f64; 1.0 = off).  The
+/// statistics stream uses it for problems posed in UNITS in which the basis functions are ~1e-155
+/// (1e-20 in single precision) and the weights ~1e155: every weighted quantity is ordinary, the square
+/// of a weight is not representable.  Cases run one after the other, so a global is sufficient; it is
+/// read by the closures of builder-made models on whatever thread evaluates them.
+pub static KERNEL_GAIN: std::sync::atomic::AtomicU64 = std::sync::atomic::AtomicU64::new(0x3ff0000000000000);
+pub fn kernel_gain() -> f64 {
+    f64::from_bits(KERNEL_GAIN.load(std::sync::atomic::Ordering::SeqCst))
+}
+pub fn set_kernel_gain(g: f64) {
+    KERNEL_GAIN.store(g.to_bits(), std::sync::atomic::Ordering::SeqCst);
+}
+
 pub fn kernel<T: Sc>(kind: Kind, x: &DVector<T>, a: &[T]) -> DVector<T> {
+    let g = kernel_gain();
+    if g != 1.0 {
+        return kernel_raw(kind, x, a) * T::of(g);
+    }
+    kernel_raw(kind, x, a)
+}
+pub fn dkernel<T: Sc>(kind: Kind, w: usize, x: &DVector<T>, a: &[T]) -> DVector<T> {
+    let g = kernel_gain();
+    if g != 1.0 {
+        return dkernel_raw(kind, w, x, a) * T::of(g);
+    }
+    dkernel_raw(kind, w, x, a)
+}
+
+pub fn kernel_raw<T: Sc>(kind: Kind, x: &DVector<T>, a: &[T]) -> DVector<T> {
     crate::common::HEARTBEAT.fetch_add(1, std::sync::atomic::Ordering::Relaxed);
     let one = T::of(1.0);
     let two = T::of(2.0);
@@ -80,7 +108,7 @@ pub fn kernel<T: Sc>(kind: Kind, x: &DVector<T>, a: &[T]) -> DVector<T> {
 }
 
 /// derivative of the kernel with respect to its `w`-th own argument
-pub fn dkernel<T: Sc>(kind: Kind, w: usize, x: &DVector<T>, a: &[T]) -> DVector<T> {
+pub fn dkernel_raw<T: Sc>(kind: Kind, w: usize, x: &DVector<T>, a: &[T]) -> DVector<T> {
     crate::common::HEARTBEAT.fetch_add(1, std::sync::atomic::Ordering::Relaxed);
     let one = T::of(1.0);
     let two = T::of(2.0);
@@ -210,6 +238,64 @@ impl Recipe {
             .initial_parameters(init.to_vec())
             .build()
             .expect("recipe must give a valid model")
+    }
+}
+
+impl Recipe {
+    /// the builder session of `build_separable` with ONE defect injected into the specification
+    /// (C08: whatever the model builder does with an invalid specification, nothing may panic later):
+    /// 0 = the first one-parameter function gets a derivative closure of arity 2,
+    /// 1 = the first two-parameter function gets a first derivative closure of arity 1,
+    /// 2 = the first parametrised function gets its first derivative twice,
+    /// 3 = the initial guess has one entry too many and is given directly after the last function
+    pub fn build_separable_defect<T: Sc>(&self, init: &[T], defect: usize) -> Result<varpro::model::SeparableModel<T>, String> {
+        let mut b = SeparableModelBuilder::<T>::new(self.names.clone());
+        let mut done = false;
+        for f in self.fns.iter() {
+            let kind = f.kind;
+            let pn: Vec<String> = f.params.iter().map(|i| self.names[*i].clone()).collect();
+            match kind.arity() {
+                0 => {
+                    b = b.invariant_function(move |x: &DVector<T>| kernel(kind, x, &[]));
+                }
+                1 => {
+                    b = b.function(pn.clone(), move |x: &DVector<T>, a: T| kernel(kind, x, &[a]));
+                    if defect == 0 && !done {
+                        done = true;
+                        b = b.partial_deriv(pn[0].clone(), move |x: &DVector<T>, a: T, _c: T| dkernel(kind, 0, x, &[a]));
+                    } else {
+                        b = b.partial_deriv(pn[0].clone(), move |x: &DVector<T>, a: T| dkernel(kind, 0, x, &[a]));
+                        if defect == 2 && !done {
+                            done = true;
+                            b = b.partial_deriv(pn[0].clone(), move |x: &DVector<T>, a: T| dkernel(kind, 0, x, &[a]));
+                        }
+                    }
+                }
+                2 => {
+                    b = b.function(pn.clone(), move |x: &DVector<T>, a: T, c: T| kernel(kind, x, &[a, c]));
+                    if defect == 1 && !done {
+                        done = true;
+                        b = b.partial_deriv(pn[0].clone(), move |x: &DVector<T>, a: T| dkernel(kind, 0, x, &[a, a]));
+                    } else {
+                        b = b.partial_deriv(pn[0].clone(), move |x: &DVector<T>, a: T, c: T| dkernel(kind, 0, x, &[a, c]));
+                        if defect == 2 && !done {
+                            done = true;
+                            b = b.partial_deriv(pn[0].clone(), move |x: &DVector<T>, a: T, c: T| dkernel(kind, 0, x, &[a, c]));
+                        }
+                    }
+                    b = b.partial_deriv(pn[1].clone(), move |x: &DVector<T>, a: T, c: T| dkernel(kind, 1, x, &[a, c]));
+                }
+                _ => unreachable!(),
+            }
+        }
+        if defect == 3 {
+            let mut v = init.to_vec();
+            v.push(T::of(1.0));
+            b = b.initial_parameters(v).independent_variable(self.xv::<T>());
+        } else {
+            b = b.independent_variable(self.xv::<T>()).initial_parameters(init.to_vec());
+        }
+        b.build().map_err(|e| format!("{:?}", e).split(|c: char| !c.is_alphanumeric()).next().unwrap_or("").to_string())
     }
 }
 
